@@ -206,6 +206,21 @@ func scanLoopBounds(p *Program, fn *ssa.Function) (int, []Finding) {
 					}
 				}
 			}
+			// fixed-size operands: the start index must not come from an unbounded length
+			if !allConst {
+				for a, pos := range operands {
+					if !fixedArrayAlloc(a) {
+						continue
+					}
+					for _, iv := range inits {
+						for _, bad := range unboundedLengthLeaves(iv, 0, map[ssa.Value]bool{}) {
+							hits = append(hits, Finding{fn, pos, "scan-start-bounded(" + allocName(a) + ")",
+								fmt.Sprintf("%s: the descending loop at %s indexes the fixed-size array %s with an index that starts from %s, which is not bounded by the array's size: a longer scalar indexes past the limbs (panic)", funcKey(fn), p.Pos(phi.Pos()), allocName(a), bad)})
+						}
+					}
+					break
+				}
+			}
 			if len(operands) < 2 {
 				continue
 			}
@@ -602,4 +617,49 @@ func callMayWriteArg(fn *ssa.Function, site ssa.CallInstruction, ad ssa.Value) b
 		}
 	}
 	return may || !found
+}
+
+// fixedArrayAlloc: a local whose type is (an array of) fixed-size word arrays.
+func fixedArrayAlloc(a *ssa.Alloc) bool {
+	t := a.Type().(*types.Pointer).Elem()
+	_, ok := t.Underlying().(*types.Array)
+	return ok
+}
+
+// unboundedLengthLeaves walks the pure value expression of v (arithmetic, phis, conversions) and
+// returns the calls it bottoms out in that yield a length not bounded by a fixed array size:
+// (*big.Int).BitLen, len of (*big.Int).Bits()/Bytes().
+func unboundedLengthLeaves(v ssa.Value, depth int, seen map[ssa.Value]bool) []string {
+	if depth > 20 || seen[v] {
+		return nil
+	}
+	seen[v] = true
+	switch x := v.(type) {
+	case *ssa.BinOp:
+		return append(unboundedLengthLeaves(x.X, depth+1, seen), unboundedLengthLeaves(x.Y, depth+1, seen)...)
+	case *ssa.Phi:
+		var out []string
+		for _, e := range x.Edges {
+			out = append(out, unboundedLengthLeaves(e, depth+1, seen)...)
+		}
+		return out
+	case *ssa.Convert:
+		return unboundedLengthLeaves(x.X, depth+1, seen)
+	case *ssa.ChangeType:
+		return unboundedLengthLeaves(x.X, depth+1, seen)
+	case *ssa.Call:
+		cl := calleeOf(&x.Call)
+		if cl.Pkg == "math/big" && cl.Recv == "Int" && cl.Name == "BitLen" {
+			return []string{"(*big.Int).BitLen of " + descValue(x.Call.Args[0], 0)}
+		}
+		if b, ok := x.Call.Value.(*ssa.Builtin); ok && b.Name() == "len" && len(x.Call.Args) == 1 {
+			if c2, ok := x.Call.Args[0].(*ssa.Call); ok {
+				cl2 := calleeOf(&c2.Call)
+				if cl2.Pkg == "math/big" && (cl2.Name == "Bits" || cl2.Name == "Bytes") {
+					return []string{"len((*big.Int)." + cl2.Name + "())"}
+				}
+			}
+		}
+	}
+	return nil
 }
